@@ -9,3 +9,5 @@ import ElfiVerif.Model.Rejection
 import ElfiVerif.Props.C01
 import ElfiVerif.Model.Distance
 import ElfiVerif.Props.C12
+import ElfiVerif.Model.Npy
+import ElfiVerif.Props.C06
